@@ -185,6 +185,14 @@ def check_tokens(chk, pm):
         raise Unrecognised('C10.T', f'only {n} expression token regexes classified', pm.mod.rel)
 
 
+def check_no_splitlines(chk, pm, rule='C10.S'):
+    for n in ast.walk(pm.func):
+        if isinstance(n, ast.Call) and isinstance(n.func, ast.Attribute) and n.func.attr == 'splitlines':
+            chk.bad(rule, pm.mod, 'parse_script', norm(n)[:80],
+                    'lines are split with str.splitlines(): it also breaks lines at form feed, vertical tab, NEL, U+2028/2029 and a lone CR, which are ordinary characters of a comment or string '
+                    'literal, and it drops the empty pieces the documented split (optional CR + LF) keeps - reported line numbers and the program itself change', node=n)
+
+
 def check_arg_split(chk, pm):
     mod = pm.mod
     fb = pm.kind_regex.get('function')
@@ -418,6 +426,7 @@ def run(chk):
     chk.assumptions += ['str.split / re semantics are CPython\'s; breaks inside string literals or multi-character operators are excluded by the property ("where a space is allowed")']
     pm = ParserModel(chk.repo, 'C10.W')
     chk.guard('C10.S', check_split, chk, pm)
+    chk.guard('C10.S', check_no_splitlines, chk, pm)
     chk.guard('C10.W', check_whitespace, chk, pm)
     chk.guard('C10.W', check_optional_expression_groups, chk, pm)
     chk.guard('C10.T', check_tokens, chk, pm)
